@@ -45,6 +45,8 @@ def lvalue_key(n):
         a = n.args
         bk = lvalue_key(a[0]) if a else None
         return None if bk is None else bk + '[]'
+    if n.k == 'CXXOperatorCallExpr' and n.op in ('->', '*') and len(n.args) == 1:
+        return lvalue_key(n.args[0])  # smart pointer / iterator access: transparent
     if n.k in ('CStyleCastExpr', 'ImplicitCastExpr', 'CXXStaticCastExpr', 'CXXReinterpretCastExpr'):
         return lvalue_key(n.child('sub'))
     if n.k == 'CXXThisExpr':
